@@ -284,8 +284,61 @@ func runOwn(o *opts) {
 	s.Rule = "AddStage sequences of single-artifact stages over the universe {a, a/b, a/b/c, a/b/c/d, a/x, b, b/c, x/b/y, ab/c, a/bc} x {file, dir, non-recursive dir} (pairs exhaustive; triples sampled in quick, exhaustive in thorough), index written and reloaded; Validate on sampled multi-artifact stages incl. hostile paths; non-trivial = some add rejected, or a Validate case; distinct by sequence"
 	s.Samples = append(s.Samples, s.CaseIndex["7"], s.CaseIndex[fmt.Sprint(nOwn+3)])
 	imp := "From DudV Require Import Base.Bytes Model.Fs Model.Cache Model.Stage Corr.RunLib."
+	// through the CLI: stages come and GO. A path is free again once its owner was removed, whatever
+	// the index looked like in between (also: empty).
+	var cli []*Transition
+	for k := 0; k < 6; k++ {
+		rr := r.fork()
+		base := scenarioDir(o, "owncli", k)
+		p := newProject(o, base, []string{"in", "abs"}[k%2])
+		p.init()
+		must(os.MkdirAll(filepath.Join(p.Root, "data", "sub"), 0o755))
+		must(os.WriteFile(filepath.Join(p.Root, "data", "sub", "y.txt"), rr.bytes(9), 0o644))
+		must(os.WriteFile(filepath.Join(p.Root, "other.txt"), rr.bytes(8), 0o644))
+		p.writeStage("a.yaml", &StageRec{Out: []Art{{Path: "data", IsDir: true}}})
+		p.writeStage("b.yaml", &StageRec{Out: []Art{{Path: "data/sub/y.txt"}}})
+		p.writeStage("c.yaml", &StageRec{Out: []Art{{Path: "other.txt"}}})
+		var seq []Cmd
+		switch k % 3 {
+		case 0: // the only stage is removed: the index is empty in between
+			seq = []Cmd{{Kind: "stageadd", Targets: []string{"a.yaml"}}, {Kind: "stagerm", Targets: []string{"a.yaml"}}, {Kind: "stageadd", Targets: []string{"b.yaml"}}}
+		case 1:
+			seq = []Cmd{{Kind: "stageadd", Targets: []string{"a.yaml", "c.yaml"}}, {Kind: "stagerm", Targets: []string{"c.yaml", "a.yaml"}}, {Kind: "stageadd", Targets: []string{"b.yaml"}}, {Kind: "status"}}
+		default:
+			seq = []Cmd{{Kind: "stageadd", Targets: []string{"b.yaml"}}, {Kind: "stagerm", Targets: []string{"b.yaml"}}, {Kind: "status"}, {Kind: "stageadd", Targets: []string{"a.yaml"}}, {Kind: "stagerm", Targets: []string{"a.yaml"}}, {Kind: "stageadd", Targets: []string{"c.yaml", "b.yaml"}}}
+		}
+		for j, c := range seq {
+			sp := want(11, 13)
+			if c.Kind == "status" && j > 0 && seq[j-1].Kind == "stagerm" {
+				sp = want(13) // an empty index: whatever status says, it says it without a lock left behind
+			}
+			t, _ := p.do(c, nil, sp, nil, nil)
+			t.Info["scenario"] = k
+			t.Info["step"] = fmt.Sprintf("%s %v (step %d of an add/remove history)", c.Kind, c.Targets, j)
+			cli = append(cli, t)
+		}
+		s.count("cli:add-remove-history")
+		distinct[fmt.Sprintf("cli%d", k%3)] = true
+		rmrf(base)
+		if p.CacheCfg != "" && filepath.Dir(p.CacheDir) != base {
+			rmrf(filepath.Dir(p.CacheDir))
+		}
+	}
 	writeShards(o.out, "own", imp, "own_case", "run_own", cases, 400, s)
 	writeShards(o.out, "val", imp, "val_case", "run_val", vcases, 400, s)
+	// the CLI histories use ids after all of the above
+	for k, t := range cli {
+		t.ID = nOwn + len(vcases) + k + 1
+	}
+	cterms := make([]string, len(cli))
+	for k, t := range cli {
+		cterms[k] = t.coq()
+		t.Info["specs"] = t.Specs
+		t.Info["ok"] = t.OK
+		s.CaseIndex[fmt.Sprint(t.ID)] = t.Info
+	}
+	s.Cases += len(cli)
+	writeShards(o.out, "owncli", sysImports, "tcase", "run_sys", cterms, 10, s)
 	s.write(o.out)
 	os.Chdir(cwd)
 	rmrf(tmp)
